@@ -164,9 +164,15 @@ _P["C05"] = {
 }
 
 _P["C04"] = {
-    "explanation": "Theorems C04_* (Properties/C04.v) over Model/Parse.v; correspondence: spec-conformant switch messages from an independent encoder, the parsed fields compared with what was written.",
-    "trusted_base": _DEC_TRUSTED + ["harness/spec_sw.go: the independent encoder of switch messages, written from OpenFlow 1.3.5 (match / instruction / action bytes inside them come from the library's element encoders, which C02/C03 check against the specification)"],
-    "assumptions": ["packet-in payloads are empty or complete Ethernet frames (a payload of 1..13 bytes is reported as an error by the library)"],
+    "explanation": "Theorem C04_switch_values_parse_to_themselves (Properties/C04.v; Model/BuildSw.v, Proofs/ParseSwAllP.v .. ParseSwAll3P.v): for every switch-side value of 12 kinds (header-only replies, get-config reply, error, "
+                   "experimenter error, port-status, features reply, flow-removed, packet-in, multipart replies desc / aggregate / flow with instructions, tlv-table reply) whose fields fit their widths the parser returns exactly the written value "
+                   "from its specification encoding (packet-in relative to the packet decoder's reading of the payload); C04_refuted_echo_body (D37); C04_examples by computation. "
+                   "Correspondence: spec-conformant switch messages from an independent Go encoder; the parsed fields compared with what was written; for cases with a recipe the model's conformant frame must equal the Go encoder's bytes "
+                   "and the theorem's prediction must hold (coverage.theorem_hypothesis_holds_on).",
+    "trusted_base": _DEC_TRUSTED + ["harness/spec_sw.go: the independent encoder of switch messages, written from OpenFlow 1.3.5 (OXM TLV / instruction / action bytes inside them come from the library's element encoders, which C02/C03 check against the specification)",
+                                    "Model/BuildSw.v: switch-side values and their conformant frames (layout tables of Model/Wire.v)"],
+    "assumptions": ["packet-in payloads are empty or complete Ethernet frames (a payload of 1..13 bytes is reported as an error by the library)",
+                    "hello with unknown elements, echo with a body (D37), port/table/queue statistics (D13) and bundle-control replies have no recipe: correspondence and examples only"],
     "harness_timeout": {"quick": 900, "thorough": 3400},
 }
 
